@@ -430,6 +430,12 @@ def load(modname, qualname, stubs=None, cuts=None, comps=None, comp_handler=None
     g['__builtins__'] = P.guarded_builtins(builtins_extra)
     if stubs:
         g.update(stubs)
+        # a pattern compiled once at module level is the same contract as the inline re.<fn>(pattern, ...) call
+        if 're' in stubs and hasattr(stubs['re'], 'compile'):
+            import re as _re
+            for k, v in list(g.items()):
+                if isinstance(v, _re.Pattern) and k not in stubs:
+                    g[k] = stubs['re'].compile(v.pattern, v.flags & ~_re.UNICODE)
     obj = m
     for p in qualname.split('.'):
         obj = inspect.getattr_static(obj, p)
